@@ -25,7 +25,7 @@ from vf.refvm import adump
 from vf.symlib import native, pin
 
 PROPERTY = "C13"
-RULE = "Program and query sequence (alphabet of 13 read-only queries, length <= bound) are solver-partitioned; every answer is compared with a fresh parse."
+RULE = "Program and query sequence (alphabet of 15 read-only queries, length <= bound) are solver-partitioned; every answer is compared with a fresh parse."
 ASSUMPTIONS = [
     "finite product space: programs x query sequences are pinned (solver-certified exhaustive partition), queries run natively",
     "an answer that raises must raise the same exception type on the fresh parse",
@@ -33,7 +33,9 @@ ASSUMPTIONS = [
     "object addresses printed by FROZENSET nodes (a recorded C05 finding) are normalised before comparing text",
 ]
 
-EXTRA = [b"0.", b"h\x05.", b"cos\nsystem\n0N\x90.",          # parse but cannot be interpreted: every view must keep raising
+EXTRA = [b"czqv\nrebuild\n(" + b"".join(b"K" + bytes([100 + i]) for i in range(14)) + b"tR.",      # a call with 14 positional arguments
+         b"czqv\nf\n(" + b"\x8c\x46" + b"x" * 70 + b"]\x94\x8c\x46" + b"y" * 70 + b"atR.",                  # long literals nested in a call / list
+         b"0.", b"h\x05.", b"cos\nsystem\n0N\x90.",          # parse but cannot be interpreted: every view must keep raising
          b"(I1\nI2\nd(I3\nI4\nu.", b"czqv\nf\n)R(K\x01K\x02u.", b"czqv\nf\n)RK\x01K\x02s.", b"]czqv\nf\n)Ra.",
          b"cos\nsystem\n(S'id'\ntRcposix\nsystem\n(S'x'\ntR\x86.", b"czqv\nf\nczqv\ng\nczqv\nh\n\x87.",
          b"\x80\x04\x80\x04N.", b"(S'k'\nI1\nS'j'\nI2\nd.", b"c__builtin__\neval\n(S'1'\ntR0c__builtin__\nexec\n(S'2'\ntR."]
@@ -59,6 +61,13 @@ def _trace(p):
     return _norm(buf.getvalue()), adump(t)
 
 
+def _trace_cli(p):
+    buf = io.StringIO()
+    with contextlib.redirect_stdout(buf):
+        t = tracing.Trace(Interpreter(p, first_variable_id=5, result_variable="result2")).run()
+    return _norm(ast.unparse(t))
+
+
 QUERIES = [
     ("unparse", lambda p: _norm(ast.unparse(p.ast))),
     ("astdump", lambda p: adump(p.ast)),
@@ -73,6 +82,9 @@ QUERIES = [
     ("trace", _trace),
     ("str_interp", lambda p: _norm(str(Interpreter(p)))),
     ("to_dict", lambda p: json.dumps(check_safety(p).to_dict(), sort_keys=True)),
+    # the way the CLI decompiles the i-th stacked pickle: own variable numbering and result name
+    ("cli_style", lambda p: _norm(ast.unparse(Interpreter(p, first_variable_id=3, result_variable="result7").to_ast()))),
+    ("cli_style_trace", lambda p: _trace_cli(p)),
 ]
 
 
